@@ -2,6 +2,7 @@
 From Coq Require Import List Bool NArith String.
 From PC Require Import Base.Cmp Base.Result Model.Pep440 Spec.Pep440Spec Model.VConstraint
      Proofs.VersionFacts Proofs.RangeSpec Proofs.RangeAlg Proofs.RangeOps Proofs.UnionHull Proofs.UnionExact Proofs.Contain Proofs.InterExact.
+From PC Require Import Gen.RangeCmp Proofs.GenAgreeRange.
 Import ListNotations.
 
 (* full statement, kept visible (unions included).  Proved: the allows_all half for every constraint shape (C12_allows_all_sound),
@@ -79,3 +80,15 @@ Theorem C12_allows_any_sound : forall a b, goodc a = true -> goodc b = true -> s
   forall v, wf v = true -> regular_c v a = true -> regular_c v b = true -> sem a v && sem b v = false.
 Proof. exact allows_any_no_is_right. Qed.
 Print Assumptions C12_allows_any_sound.
+
+(* the tie by translation: the bound comparisons of version_range_constraint.py, re-translated from /repo's working tree on
+   this run (coq/Gen/RangeCmp.v), are the functions the theorems above speak about *)
+Theorem C12_comparisons_of_current_source : forall a b,
+  allowed_max_gen a = allowed_max a /\ allows_lower_gen a b = allows_lower a b /\ allows_higher_gen a b = allows_higher a b /\
+  is_strictly_lower_gen a b = is_strictly_lower a b /\ is_strictly_higher_gen a b = is_strictly_higher a b /\
+  is_adjacent_to_gen a b = is_adjacent_to a b.
+Proof.
+  intros a b. split; [apply allowed_max_agrees|]. split; [apply allows_lower_agrees|]. split; [apply allows_higher_agrees|].
+  split; [apply is_strictly_lower_agrees|]. split; [apply is_strictly_higher_agrees|apply is_adjacent_to_agrees].
+Qed.
+Print Assumptions C12_comparisons_of_current_source.
